@@ -336,8 +336,48 @@ def r6_pass_order(run, F):
     run.ob("R6-ANALYZER-ORDER", "chained", chained and len(seq) == 4, F.where(b), "four analyzer passes, each fed with the previous result (%d found)" % len(seq))
 
 
+STATEMENT_LEVEL = ("alpha::common::Statement", "alpha::common::Block", "alpha::common::FunctionBody", "alpha::common::Declaration",
+                   "alpha::common::Else")
+
+
+def r7_errors_merged(run, F):
+    """The placement errors (E800/E801/E840), the label errors (E400/E420) and every other diagnostic planted in a statement by
+    an earlier stage surface when the resolver *merges* the errors of all parts of a statement: `(a, b, c).resolve()?`
+    resolves every part and concatenates their errors.  Two `.resolve()?` in sequence in one arm of a statement-level
+    Resolvable impl stop at the first part that has an error, so the errors of the later parts (the else branch, a later
+    `else if`) are never reported.  Expression-level impls do this on purpose in five commented places (no point reporting
+    type inference under an unresolved name); statement-level impls never."""
+    n = 0
+    for p, b in sorted(F.lib.bodies.items()):
+        if "hir" not in b or not F.rel(b["file"]).endswith("alpha/resolver.rs") or "{closure" in p or not p.endswith("::resolve"):
+            continue
+        if not any(p.startswith("<" + t + " as ") for t in STATEMENT_LEVEL):
+            continue
+        n += 1
+
+        def tries(node):
+            out = []
+            for x in walk(node):
+                if x.get("k") == "Match" and "Try" in str(x.get("msrc")):
+                    sc = hirq.unwrap_trivial(x["scrut"])
+                    arg = hirq.unwrap_trivial(sc["a"][0]) if sc.get("a") else {}
+                    if arg.get("k") == "MethodCall" and arg.get("name") == "resolve":
+                        out.append(x)
+            return out
+        ms = [m for m in hirq.matches(b["hir"]) if hirq.n_alts(m) >= 3]
+        units = [(hirq.pat_key(hirq.pat_alts(a["pat"])[0]).split("::")[-1], a["body"]) for a in ms[0]["arms"]] if ms else [("body", b["hir"])]
+        for label, body in units:
+            t = tries(body)
+            run.ob("R7-ERRORS-MERGED", "%s|%s" % (p.split(" as ")[0].strip("<").split("::")[-1], label), len(t) <= 1, F.where(b, t[1]) if len(t) > 1 else F.where(b),
+                   "%d `.resolve()?` in sequence: the parts of a statement must be resolved together (tuple) so that the errors of every part "
+                   "are reported, not only those of the first part that has one" % len(t))
+    run.floor("R7-ERRORS-MERGED", 10, "arms of the statement-level Resolvable impls")
+    run.require(n >= 3, "statement-level Resolvable impls not found in resolver.rs (%d)" % n)
+
+
 def check(run):
     F = run.facts("B")
+    r7_errors_merged(run, F)
     r1_emission(run, F)
     r2_flags(run, F)
     r3_lint(run, F)
